@@ -156,7 +156,39 @@ package reconciling
 //@ spec isIndent(s string) bool = s == "    " || s == "   " || s == "  " || s == "\t"
 //@ spec isLE(s string) bool = s == "\n" || s == "\r\n"
 //@ spec indented(l txt.Line) bool = !txt.blank(l) && txt.indentOf(l) != ""
+// The style a record exhibits in its values: the dash spacing and clock convention of its last range or open range,
+// the placeholder length of its last open range (explicit exactly when there is such an entry, defaults otherwise).
+//@ spec ents(r klog.Record) []klog.Entry = r.(*klog.record).entries
+//@ spec isRng(e klog.Entry) bool = typeis(e.value, *klog.timeRange) || typeis(e.value, *klog.openRange)
+//@ spec isOpn(e klog.Entry) bool = typeis(e.value, *klog.openRange)
+//@ spec dashOf(e klog.Entry) bool = ite(typeis(e.value, *klog.timeRange), e.value.(*klog.timeRange).format.UseSpacesAroundDash, e.value.(*klog.openRange).format.UseSpacesAroundDash)
+//@ spec clockOf(e klog.Entry) bool = ite(typeis(e.value, *klog.timeRange), e.value.(*klog.timeRange).start.(*klog.time).format.Use24HourClock, e.value.(*klog.openRange).start.(*klog.time).format.Use24HourClock)
+//@ spec phOf(e klog.Entry) int = e.value.(*klog.openRange).format.AdditionalPlaceholderChars
+//@ spec hasRng(r klog.Record) bool = exists(j, 0, len(ents(r)), isRng(ents(r)[j]))
+//@ spec hasOpn(r klog.Record) bool = exists(j, 0, len(ents(r)), isOpn(ents(r)[j]))
+//@ spec hasInd(b txt.Block) bool = exists(k, 0, len(b.(*txt.block).lines), indented(b.(*txt.block).lines[k]))
+//@ spec hasLE(b txt.Block) bool = len(b.(*txt.block).lines) > 0 && b.(*txt.block).lines[0].LineEnding != ""
+// xRng(r), xOpn(r), xInd(b), xLE(b): whether determine() reports the range style, the placeholder length, the indentation,
+// the line ending as exhibited (explicit); rdash(r), rclock(r), rph(r), rind(b), rle(b): the values it reports (uninterpreted;
+// determine gives them their meaning, and its verified postconditions say what that meaning is).
+//@ spec xRng(r klog.Record) bool
+//@ spec xOpn(r klog.Record) bool
+//@ spec xInd(b txt.Block) bool
+//@ spec xLE(b txt.Block) bool
+//@ spec rdash(r klog.Record) bool
+//@ spec rclock(r klog.Record) bool
+//@ spec rph(r klog.Record) int
+//@ spec rind(b txt.Block) string
+//@ spec rle(b txt.Block) string
 //@ func determine
+//@ defines result.rangesUseSpacesAroundDash.isExplicit == xRng(r) && result.timeUse24HourClock.isExplicit == xRng(r) && result.openRangeAdditionalPlaceholderChars.isExplicit == xOpn(r) && result.indentation.isExplicit == xInd(b) && result.lineEnding.isExplicit == xLE(b)
+//@ defines result.rangesUseSpacesAroundDash.value == rdash(r) && result.timeUse24HourClock.value == rclock(r) && result.openRangeAdditionalPlaceholderChars.value == rph(r) && same(result.indentation.value, rind(b)) && same(result.lineEnding.value, rle(b))
+//@ requires forall(i, 0, len(ents(r)), implies(isRng(ents(r)[i]), ite(typeis(ents(r)[i].value, *klog.timeRange), typeis(ents(r)[i].value.(*klog.timeRange).start, *klog.time), typeis(ents(r)[i].value.(*klog.openRange).start, *klog.time))))
+//@ ensures result.rangesUseSpacesAroundDash.isExplicit == hasRng(r) && result.timeUse24HourClock.isExplicit == hasRng(r) && result.openRangeAdditionalPlaceholderChars.isExplicit == hasOpn(r)
+//@ ensures forall(j, 0, len(ents(r)), implies(isRng(ents(r)[j]) && forall(k, j+1, len(ents(r)), !isRng(ents(r)[k])), result.rangesUseSpacesAroundDash.value == dashOf(ents(r)[j]) && result.timeUse24HourClock.value == clockOf(ents(r)[j])))
+//@ ensures forall(j, 0, len(ents(r)), implies(isOpn(ents(r)[j]) && forall(k, j+1, len(ents(r)), !isOpn(ents(r)[k])), result.openRangeAdditionalPlaceholderChars.value == phOf(ents(r)[j])))
+//@ ensures implies(!hasRng(r), result.rangesUseSpacesAroundDash.value && result.timeUse24HourClock.value)
+//@ ensures implies(!hasOpn(r), result.openRangeAdditionalPlaceholderChars.value == 0)
 //@ requires typeis(r, *klog.record) && typeis(r.(*klog.record).date, *klog.date) && typeis(b, *txt.block)
 //@ requires forall(i, 0, len(r.(*klog.record).entries), klog.ekind(r.(*klog.record).entries[i]))
 //@ let ls = b.(*txt.block).lines
@@ -168,11 +200,17 @@ package reconciling
 //@ ensures result.dateUseDashes.isExplicit && result.dateUseDashes.value == r.(*klog.record).date.(*klog.date).format.UseDashes
 // the style is always one the file format allows
 //@ ensures isIndent(result.indentation.value) && isLE(result.lineEnding.value)
-//@ loop 1 invariant fresh(s)
+//@ ensures result.indentation.isExplicit == hasInd(b) && result.lineEnding.isExplicit == hasLE(b)
+//@ loop 1 invariant fresh(s) && s.dateUseDashes.isExplicit && s.dateUseDashes.value == r.(*klog.record).date.(*klog.date).format.UseDashes && !s.indentation.isExplicit && s.indentation.value == "    " && !s.lineEnding.isExplicit && s.lineEnding.value == "\n"
+//@ loop 1 invariant s.rangesUseSpacesAroundDash.isExplicit == exists(j, 0, rangeindex+1, isRng(ents(r)[j])) && s.timeUse24HourClock.isExplicit == s.rangesUseSpacesAroundDash.isExplicit && s.openRangeAdditionalPlaceholderChars.isExplicit == exists(j, 0, rangeindex+1, isOpn(ents(r)[j]))
+//@ loop 1 invariant forall(j, 0, rangeindex+1, implies(isRng(ents(r)[j]) && forall(k, j+1, rangeindex+1, !isRng(ents(r)[k])), s.rangesUseSpacesAroundDash.value == dashOf(ents(r)[j]) && s.timeUse24HourClock.value == clockOf(ents(r)[j])))
+//@ loop 1 invariant forall(j, 0, rangeindex+1, implies(isOpn(ents(r)[j]) && forall(k, j+1, rangeindex+1, !isOpn(ents(r)[k])), s.openRangeAdditionalPlaceholderChars.value == phOf(ents(r)[j])))
+//@ loop 1 invariant implies(!s.rangesUseSpacesAroundDash.isExplicit, s.rangesUseSpacesAroundDash.value && s.timeUse24HourClock.value) && implies(!s.openRangeAdditionalPlaceholderChars.isExplicit, s.openRangeAdditionalPlaceholderChars.value == 0)
 //@ loop 2 invariant fresh(s) && !s.indentation.isExplicit && s.indentation.value == "    " && forall(k, 0, rangeindex+1, !indented(b.(*txt.block).lines[k]))
 
 // Elections. An election records, besides the number of votes per value, the order in which the values received
-// their first vote (e.order); every listed value has at least one vote.
+// their first vote (e.order); every listed value has at least one vote; there are as many listed values as keys (vote
+// keeps that equation; it is stated separately so that proofs that do not need it are not burdened with it).
 //@ spec elOk(votes map[T]int, order []T) bool = nonnil(votes) && forall(q, 0, len(order), votes[order[q]] >= 1)
 
 // vote: a style that is not explicit does not vote; an explicit one adds one vote for its value, which joins the end
@@ -182,6 +220,7 @@ package reconciling
 //@ modifies e.order, mapof(e.votes)
 //@ ensures elOk(e.votes, e.order)
 //@ ensures implies(!style.isExplicit, same(e.order, old(e.order)))
+//@ ensures implies(old(len(e.votes) == len(e.order)), len(e.votes) == len(e.order))
 //@ ensures implies(style.isExplicit, e.votes[style.value] == old(e.votes[style.value]) + 1)
 //@ ensures implies(style.isExplicit && old(haskey(e.votes, style.value)), same(e.order, old(e.order)))
 //@ ensures implies(style.isExplicit && !old(haskey(e.votes, style.value)), len(e.order) == old(len(e.order)) + 1 && same(e.order[len(e.order)-1], style.value))
@@ -197,6 +236,7 @@ package reconciling
 // in particular: when all votes are for one value (the records that exhibit a style agree), that value wins
 //@ ensures implies(len(e.order) == 1, same(result, e.order[0]))
 //@ ensures same(result, defaultValue) || exists(p, 0, len(e.order), same(result, e.order[p]))
+//@ ensures implies(len(e.order) > 0, exists(p, 0, len(e.order), same(result, e.order[p])))
 //@ loop 1 invariant max >= 0 && implies(rangeindex < 0, max == 0 && same(result, defaultValue))
 //@ loop 1 invariant implies(rangeindex >= 0, exists(p, 0, rangeindex+1, same(result, e.order[p]) && max == e.votes[e.order[p]] && forall(q, 0, rangeindex+1, e.votes[e.order[q]] <= max) && forall(q, 0, p, e.votes[e.order[q]] < max)))
 
@@ -206,6 +246,8 @@ package reconciling
 //@ ensures result.isExplicit
 //@ ensures implies(defaultStyle.isExplicit, same(result, defaultStyle))
 //@ ensures same(result.value, defaultStyle.value) || exists(p, 0, len(e.order), same(result.value, e.order[p]))
+//@ ensures implies(!defaultStyle.isExplicit && len(e.order) == 0, same(result.value, defaultStyle.value))
+//@ ensures implies(!defaultStyle.isExplicit && len(e.order) > 0, exists(p, 0, len(e.order), same(result.value, e.order[p])))
 
 // elect: every property that the base style has explicitly (the target record exhibits it) is kept as it is; every
 // other property is decided by its election over all records, and is marked explicit afterwards.
@@ -213,17 +255,26 @@ package reconciling
 //@ requires len(rs) == len(bs)
 //@ requires forall(i, 0, len(rs), typeis(rs[i], *klog.record) && typeis(rs[i].(*klog.record).date, *klog.date) && typeis(bs[i], *txt.block))
 //@ requires forall(i, 0, len(rs), forall(j, 0, len(rs[i].(*klog.record).entries), klog.ekind(rs[i].(*klog.record).entries[j])))
+//@ requires forall(i, 0, len(rs), forall(j, 0, len(ents(rs[i])), implies(isRng(ents(rs[i])[j]), ite(typeis(ents(rs[i])[j].value, *klog.timeRange), typeis(ents(rs[i])[j].value.(*klog.timeRange).start, *klog.time), typeis(ents(rs[i])[j].value.(*klog.openRange).start, *klog.time)))))
 //@ requires isIndent(base.indentation.value) && isLE(base.lineEnding.value)
 //@ ensures fresh(result)
 //@ ensures isIndent(result.indentation.value) && isLE(result.lineEnding.value)
 //@ ensures result.lineEnding.isExplicit && result.indentation.isExplicit && result.dateUseDashes.isExplicit && result.timeUse24HourClock.isExplicit && result.rangesUseSpacesAroundDash.isExplicit && result.openRangeAdditionalPlaceholderChars.isExplicit
+// each property is decided by its own election together with its own base value, and each election receives the votes
+// of its own property (cuts checked at every call of vote and of ascertain: the election and the style value handed
+// over belong to the same property)
+//@ before vote assert (arg0 == &lineEndingElection && same(arg1, s.lineEnding)) || (arg0 == &indentationElection && same(arg1, s.indentation)) || (arg0 == &dateUseDashes && same(arg1, s.dateUseDashes)) || (arg0 == &timeUse24HourClock && same(arg1, s.timeUse24HourClock)) || (arg0 == &rangesUseSpacesAroundDash && same(arg1, s.rangesUseSpacesAroundDash)) || (arg0 == &openRangeAdditionalPlaceholderChars && same(arg1, s.openRangeAdditionalPlaceholderChars))
+//@ before ascertain[string] assert (arg0 == &lineEndingElection && same(arg1, base.lineEnding)) || (arg0 == &indentationElection && same(arg1, base.indentation))
+//@ before ascertain[bool] assert (arg0 == &dateUseDashes && same(arg1, base.dateUseDashes)) || (arg0 == &timeUse24HourClock && same(arg1, base.timeUse24HourClock)) || (arg0 == &rangesUseSpacesAroundDash && same(arg1, base.rangesUseSpacesAroundDash))
+//@ before ascertain[int] assert arg0 == &openRangeAdditionalPlaceholderChars && same(arg1, base.openRangeAdditionalPlaceholderChars)
 //@ ensures implies(base.lineEnding.isExplicit, same(result.lineEnding, base.lineEnding))
 //@ ensures implies(base.indentation.isExplicit, same(result.indentation, base.indentation))
 //@ ensures implies(base.dateUseDashes.isExplicit, same(result.dateUseDashes, base.dateUseDashes))
 //@ ensures implies(base.timeUse24HourClock.isExplicit, same(result.timeUse24HourClock, base.timeUse24HourClock))
 //@ ensures implies(base.rangesUseSpacesAroundDash.isExplicit, same(result.rangesUseSpacesAroundDash, base.rangesUseSpacesAroundDash))
 //@ ensures implies(base.openRangeAdditionalPlaceholderChars.isExplicit, same(result.openRangeAdditionalPlaceholderChars, base.openRangeAdditionalPlaceholderChars))
-//@ loop 1 invariant forall(q, 0, len(indentationElection.order), isIndent(indentationElection.order[q])) && forall(q, 0, len(lineEndingElection.order), isLE(lineEndingElection.order[q]))
+//@ loop 1 invariant forall(q, 0, len(indentationElection.order), isIndent(indentationElection.order[q]))
+//@ loop 1 invariant forall(q, 0, len(lineEndingElection.order), isLE(lineEndingElection.order[q]))
 //@ loop 1 invariant elOk(lineEndingElection.votes, lineEndingElection.order) && elOk(indentationElection.votes, indentationElection.order) && elOk(dateUseDashes.votes, dateUseDashes.order) && elOk(timeUse24HourClock.votes, timeUse24HourClock.order) && elOk(rangesUseSpacesAroundDash.votes, rangesUseSpacesAroundDash.order) && elOk(openRangeAdditionalPlaceholderChars.votes, openRangeAdditionalPlaceholderChars.order)
 
 // ---------------------------------------------------------------------------------------------
